@@ -14,6 +14,7 @@
 
 #include <cfloat>
 #include <climits>
+#include <new>
 #include <random>
 #include <set>
 
@@ -326,16 +327,16 @@ struct Div2
     return std::tie(a, b);
   }
 };
-// statement: for a >= 0, b > 0 the result is the least q with q*b >= a.  Domain as fixed in
-// DESIGN 5/C07: additionally a <= max(T) - b, so that a+b-1 is representable in T.
+// statement: for a >= 0, b > 0 the result is the least q with q*b >= a.
 template <class T>
 static void divru_case(const Div2<T> &c, pbt::Ctx &ctx)
 {
   using L = std::numeric_limits<T>;
   const __int128 a = c.a, b = c.b, mx = L::max();
-  // types narrower than int: a+b-1 is evaluated in int (integer promotion), the statement holds on all of a>=0, b>0
-  const bool narrow = sizeof(T) < sizeof(int);
-  if (a < 0 || b <= 0 || (!narrow && a > mx - b)) {
+  // the statement's domain, nothing else: a >= 0 and b > 0 (up to the maximum of T; an earlier version of this check
+  // also required a + b - 1 to be representable, which the statement does not say - DESIGN section 6, #33)
+  (void)mx;
+  if (a < 0 || b <= 0) {
     ctx.label("out-of-domain(not asserted)");
     return;
   }
@@ -384,7 +385,7 @@ static rc::Gen<Div2<T>> genDiv()
       [mx](const std::tuple<T, int, uint64_t, uint64_t> &t) {
         const U b = (U)std::get<0>(t);
         const U rnd = ((U)std::get<2>(t) << 32) | std::get<3>(t);
-        const U top = sizeof(T) < sizeof(int) ? mx : mx - b;  // largest admissible a (see divru_case)
+        const U top = mx;  // largest admissible a
         const U kmax = top / b;            // largest k with k*b <= top
         const U k = kmax ? 1 + rnd % kmax : 0;
         U a;
@@ -583,7 +584,18 @@ static void pack_case(const V4 &c, pbt::Ctx &ctx)
       ctx.label("out-of-domain(nan, not asserted)");
       return;
     }
-  const rk::vec4f v(c.v[0], c.v[1], c.v[2], c.v[3]);
+  // the argument lives at every address a vec4f may have (alignof(vec4f) == 4): offsets 0, 4, 8, 12 within a 16-byte
+  // aligned buffer, chosen by the case - a struct member after a float or an int, an element of a packed record
+  static_assert(alignof(rk::vec4f) == 4, "vec4f is float-aligned");
+  alignas(16) unsigned char place[16 + sizeof(rk::vec4f)];
+  uint32_t bits0, bits3;
+  memcpy(&bits0, &c.v[0], 4);
+  memcpy(&bits3, &c.v[3], 4);
+  const size_t off = 4 * (size_t)(((bits0 >> 3) ^ bits3 ^ (bits0 >> 17)) % 4);
+  rk::vec4f *pv = new (place + off) rk::vec4f(c.v[0], c.v[1], c.v[2], c.v[3]);
+  const rk::vec4f &v = *pv;
+  if (off)
+    ctx.label("vec4f at a float-aligned (not 16-byte aligned) address");
   const uint32_t lin = rk::cvt_uint32(v);
   const uint32_t srgb = rk::linear_to_srgba8(v);
   bool bnd = false, sat0 = false, sat1 = false;
